@@ -24,7 +24,7 @@ import c04_ir
 import common
 
 ID = "C04"
-TABLES = ["attrsKw", "defineKw", "frozenPartialKw", "hashCacheField", "c17HashKeyAffix"]
+TABLES = ["attrsKw", "defineKw", "frozenPartialKw", "hashCacheField", "c17HashKeyAffix", "fn_attrs_wrap"]
 TRUSTED = ["harness/c04_ir.py: the strict parser from the generated __hash__ source to the IR of Model/C04IR.lean (T3); anything it does not recognise becomes an `unknown` node"]
 PARALLEL = True
 BUDGET_S = {"quick": 38, "thorough": 400}
